@@ -13,6 +13,10 @@ CLAIMED = {
    text="Deductive proof per function: CoopCloseBalance is proved equal to the exact-integer statement of the property (each side's balance, dangling commit fee and 2x330 sat anchors credited to the opener, closing fee charged to the paying party, error iff a result would be negative, sum conserved); CreateCooperativeCloseTx writes an output value only for a party whose balance is at least its own dust limit and the value is that balance; CreateCloseProposal and CompleteCooperativeClose hand exactly the local commitment's balances, fee, dust limits and scripts to those functions (site obligations); the legacy negotiation step functions (feeInAcceptableRange, ratchetFee, calcCompromiseFee) equal their arithmetic specs and move strictly toward the peer's offer.",
    note="Domain: balances/fees in [0, 21e14] sat. Not decided: byte-identity of both sides' transactions, signature validity, musig2, extra-output closures (loops are havocked, the site obligations still hold), termination of the negotiation over many rounds (only the per-round monotone-approach facts are proved). Trusted: go/ssa, gowp, SMT solvers; A-frame/A-seq.",
    ref="DESIGN.md §4 C17"),
+ "C16": dict(
+   text="Deductive proof per function: the three status predicates (initializable / removable / updatable) equal their documented tables; decidePaymentStatus equals the five-row truth table of the statement for every attempt slice (loop invariant over the processed prefix, range quantifiers as recursive functions) and never reports Failed when a settled attempt exists; Registrable is exactly 'Initiated, or InFlight with no settled attempt and not failed'; verifyAttempt returns nil only if sent + attempt amount <= payment amount in exact integers; setState stores the decided status, Value - sent, and the settled/failed flags; and in BOTH back ends (closures of KVStore.InitPayment / RegisterAttempt / updateHtlcKey and SQLStore.InitPayment / RegisterAttempt / SettleAttempt / FailAttempt) every write is dominated by the corresponding verified guard applied to the value just fetched (site obligations).",
+   note="A-dom: sum of recorded attempt amounts and a route's receiver amount are <= 2^62 msat (trusted contracts on SentAmt and route.ReceiverAmt). A-glob: sentinel error variables are distinct, non-nil, never reassigned. Not decided: interleavings of concurrent DB transactions (each closure is verified as sequential code), answer-for-answer equality of the two back ends over histories, deletion paths, the DB layers themselves (kvdb / sqlc are opaque).",
+   ref="DESIGN.md §4 C16"),
 }
 
 NOT_APPLICABLE = {
